@@ -29,7 +29,8 @@ FLOORS = {
               'denied_layer_pixel_checks': 90, 'rejected_as_expected': 750, 'must_be_clear_pixels': 21000000,
               'must_keep_pixels': 7500000, 'limited_map_checks': 480, 'limited_tile_checks': 360, 'featureinfo_inside': 150,
               'featureinfo_outside': 270, 'featureinfo_denied': 300, 'svc_wms_map': 990, 'svc_wms_fi': 420,
-              'family_tms': 390, 'family_wmts': 250, 'family_kml': 270, 'svc_wmts_fi_kvp': 130, 'svc_wmts_fi_rest': 120},
+              'family_tms': 390, 'family_wmts': 250, 'family_kml': 270, 'svc_wmts_fi_kvp': 130, 'svc_wmts_fi_rest': 120,
+              'concurrent_rounds': 40, 'concurrent_answers_compared': 3000},
     'thorough': {'scenarios': 2600, 'requests': 21000, 'denied_checks': 9500, 'no_upstream_for_denied_checks': 9500,
                  'denied_layer_pixel_checks': 780, 'rejected_as_expected': 6000, 'must_be_clear_pixels': 160000000,
                  'must_keep_pixels': 54000000, 'limited_map_checks': 3500, 'limited_tile_checks': 2800,
@@ -1592,6 +1593,82 @@ def gen_cases(run):
         yield {'i': i}
 
 
+def concurrent_phase(ctx, probes):
+    """what one client may see must not depend on what other clients, with other rights, ask at the same moment. Every probe
+    of the scenario (its URL with its own callback, and the same URL with an all-allowing callback) is answered once more
+    alone, then all of them are issued from four real threads at once (interpreter switch interval 1 microsecond); every
+    concurrent answer must be byte-identical to the answer given alone. Caches are warm; answers that are not repeatable
+    when alone are left out."""
+    import threading
+    run = ctx.run
+    items = []
+    for p in probes:
+        svc, req = p['service'], p['req']
+        url = wms_url(req, fi=(svc == 'wms_fi')) if svc in ('wms_map', 'wms_fi') else tile_url(svc, req, ctx.spec['leaves'][req['layer']])
+        items.append((url, p['auth'], svc))
+        items.append((url, None, svc))
+
+    def get(it):
+        cb = Auth(it[1]) if it[1] is not None else full_auth
+        r = wsgi_call(ctx.sc.app, it[0], cb)
+        return r.code, r.body
+    try:
+        ref = [get(it) for it in items]
+        again = [get(it) for it in items]
+    except Exception as ex:
+        run.dc('concurrent_phase_reference_failed:' + type(ex).__name__)
+        return
+    stable = [i for i in range(len(items)) if ref[i] == again[i]]
+    if len(stable) < len(items):
+        run.count('answers_not_repeatable_when_alone', len(items) - len(stable))
+    if len(stable) < 2:
+        return
+    diffs = []
+    lock = threading.Lock()
+    nthreads = 4
+    start = threading.Barrier(nthreads)
+
+    def client(k):
+        order = (stable[k:] + stable[:k]) * 2
+        try:
+            start.wait(20)
+            for i in order:
+                got = get(items[i])
+                if got != ref[i]:
+                    with lock:
+                        diffs.append((i, got))
+        except Exception as ex:
+            with lock:
+                diffs.append((-1, (0, repr(ex).encode())))
+    old_switch = sys.getswitchinterval()
+    sys.setswitchinterval(1e-6)
+    try:
+        ths = [threading.Thread(target=client, args=(k,)) for k in range(nthreads)]
+        for t in ths:
+            t.start()
+        for t in ths:
+            t.join(180)
+    finally:
+        sys.setswitchinterval(old_switch)
+        ctx.up.reset_log()
+    run.hit('concurrent_rounds')
+    run.hit('concurrent_answers_compared', len(stable) * 2 * nthreads)
+    if diffs:
+        i, got = diffs[0]
+        if i < 0:
+            detail = 'exception %r' % (got[1][:300],)
+            mech = {'service': 'any', 'clause': 'request_raised_under_concurrency'}
+        else:
+            detail = '%s with %s: alone %d (%d bytes), concurrently %d (%d bytes)' % (
+                items[i][0], 'its own callback ' + json.dumps(items[i][1])[:400] if items[i][1] is not None else 'the all-allowing callback',
+                ref[i][0], len(ref[i][1]), got[0], len(got[1]))
+            mech = {'service': items[i][2], 'clause': 'answer_differs_under_concurrency', 'restricted_client': items[i][1] is not None,
+                    'status_changed': got[0] != ref[i][0]}
+        run.violation(mech, {'i': ctx.case.get('i'), 'scen': ctx.spec, 'probes': probes},
+                      '%d of %d concurrently issued requests were answered differently from the same request issued alone; first: %s' % (
+                          len(diffs), len(stable) * 2 * nthreads, detail))
+
+
 def run_case(run, case):
     rng = run.rng('case', case.get('i'))
     spec = case.get('scen') or gen_scenario(rng)
@@ -1606,15 +1683,21 @@ def run_case(run, case):
         run.hit('scenarios')
         run.count('shape:' + spec['shape'])
         probes = case.get('probes')
+        executed = []
         if probes is None:
             nprobe = run.pick(5, 8)
             for j in range(nprobe):
                 if run.out_of_time():
                     break
-                exec_probe(ctx, gen_probe(run.rng('probe', case['i'], j), spec))
+                p = gen_probe(run.rng('probe', case['i'], j), spec)
+                exec_probe(ctx, p)
+                executed.append(p)
         else:
             for p in probes:
                 exec_probe(ctx, p)
+                executed.append(p)
+        if len(executed) >= 2 and (case.get('i', 0) % 4 == 0 or run.replaying):
+            concurrent_phase(ctx, executed)
         if ctx.maxdiff:
             run.count('jpeg_keep_maxdiff_ge_%d' % (ctx.maxdiff // 16 * 16))
         for e in ctx.errors[:1]:
